@@ -17,7 +17,12 @@ import os
 from .env import sched
 from .tlc import MachineryError
 
-EXPECT = {"Acq": "acquire", "Body": "body", "Rel": "release"}
+EXPECT = {"Acq": "acquire", "Body": "body", "BodyFail": "body", "Rel": "release"}
+RAISED = -1
+
+
+class ProbeError(Exception):
+    """What the probe body raises when the specification says the computation fails."""
 
 
 class Divergence(Exception):
@@ -33,6 +38,7 @@ class World:
         self.ts = ts0
         self.nbody = 0
         self.results: dict[int, list] = {}
+        self.fail: set = set()
         ctl = self.ctl = sched.Controller(groups=["memo"])
         g = self.g = sched.load_utils_copy(f"utils__c15memo_{uid}", ctl)
         sched.install_locks(g, ctl, "m")
@@ -40,11 +46,14 @@ class World:
         g["get_terminal_size"] = lambda: os.terminal_size({1: (80, 24), 2: (80, 30), 3: (100, 30)}[self.ts])
         world = self
 
-        def body(*args):
+        def body(*args, **kwargs):
             me = ctl.cur().tid
             ctl.inbody.add(me)
             try:
                 ctl.park("body")
+                if me in world.fail:
+                    world.fail.discard(me)
+                    raise ProbeError("the memoized computation fails")
                 world.nbody += 1
                 return world.nbody
             finally:
@@ -69,10 +78,15 @@ class World:
                 if item["k"] == "inv":
                     self.invalidate()
                     r = 0
-                elif self.kind == "cached":
-                    r = self.wrapped(item["a"])
                 else:
-                    r = self.wrapped()
+                    try:
+                        if self.kind == "cached":
+                            form = self.cfg["args"][item["a"] - 1]  # positional and keyword arguments
+                            r = self.wrapped(*form["pos"], **{k: v for k, v in form["kw"]})
+                        else:
+                            r = self.wrapped()
+                    except ProbeError:
+                        r = RAISED
                 self.results.setdefault(t, []).append(r)
 
         return run
@@ -97,6 +111,8 @@ class World:
                     + " - the wrapper does not run the body under its lock as specified",
                 )
             n0 = len(self.results.get(t, []))
+            if act == "BodyFail":
+                self.fail.add(t)
             at = ctl.resume(t)
             if mt.error is not None:
                 raise Divergence("BodyOnce", f"{act}:raised-{type(mt.error).__name__}",
@@ -108,12 +124,15 @@ class World:
                 if len(rs) != n0 + 1:
                     raise Divergence("BodyOnce", "Rel:no-return", f"thread {t} released the lock but the call did not return")
                 if rs[-1] != op["res"]:
-                    raise Divergence("BodyOnce", "Rel:value",
+                    raise Divergence("ValueFresh", "Rel:value",
                                      f"thread {t}: the memoized call returned {rs[-1]}, specified {op['res']} "
-                                     f"(values are the ordinals of body executions)")
+                                     f"(values are the ordinals of body executions, -1 = raised): a value computed "
+                                     f"for another argument tuple / terminal size, or by a failed computation, was served")
         if set(ctl.inbody) != set(op["inb"]):
             # the body did not run where it must (stale value) / ran where it must not (ran twice)
-            clause = "MemoFresh" if self.kind == "tsc" and set(op["inb"]) - set(ctl.inbody) else "BodyOnce"
+            # the body did not run where a value has to be computed (a value memoized for something else,
+            # or left by a failed computation, is being served) / it ran where it must not
+            clause = "MemoFresh" if set(op["inb"]) - set(ctl.inbody) else "BodyOnce"
             raise Divergence(clause, f"{act}:in-body",
                              f"after {act} by thread {t}: threads inside the wrapped function: real {sorted(ctl.inbody)}, specified {sorted(op['inb'])}")
         if self.blocked() != set(op["blk"]):
